@@ -24,7 +24,7 @@ RULE = (
     "types) and then counts 30 distinct items. Random part (Hypothesis): position-sorted single-player streams over "
     "1..6 columns x 1..12 rows with beats of arbitrary denominators, all nine note types, keysound indices, drawn from "
     "cell alphabets biased to heads/tails, x include_note_types (omitted, counting defaults, {2,3}, {4,3}, random "
-    "subsets), each under 3 modes x join off/on x 9 policy pairs, the all-defaults calls, count_grouped_notes with "
+    "subsets), each under 3 modes x [join on x 9 policy pairs | join off x 3 of the 9 (ignored) pairs, all 9 over the modes], the all-defaults calls, count_grouped_notes with "
     "same_beat_minimum 1..4 on every result and every count_* function; same non-trivial rule on the included notes; "
     "distinct = distinct case JSON. Fixed part: every chart of every corpus simfile (per player) x 5 include sets x 30 "
     "combinations + counts"
@@ -43,7 +43,7 @@ CORPUS_INCLUDES = [None, MG.COUNT_DEFAULT, "23", "43", "234"]
 
 def need(c, msg):
     if not c:
-        raise Violation(msg)
+        raise Violation(msg() if callable(msg) else msg)
 
 
 class _Lib:
@@ -138,16 +138,16 @@ def eval_group(L, M, rnotes, include, mode, join, oh, ot, pass_policies=True, pa
     try:
         raw = list(L.group_notes(rnotes, **kw))
     except L.Orphaned as e:
-        need(
-            exp_kind == "raise",
-            f"group_notes on {show(M.notes)} with {opts()} raised OrphanedNoteException({e}) but no orphan falls under a RAISE policy; expected {show_groups(exp) if exp_kind == 'ok' else ''}",
-        )
+        if exp_kind != "raise":
+            raise Violation(f"group_notes on {show(M.notes)} with {opts()} raised OrphanedNoteException({e}) but no orphan falls under a RAISE policy; expected {show_groups(exp)}")
         if e.args and isinstance(e.args[0], L.Note):
             n = e.args[0]
             named = (n.beat, n.column, n.note_type.value, n.player, n.keysound_index)
-            need(named in exp, f"group_notes on {show(M.notes)} with {opts()} raised about {named}, which is not one of the orphans under a RAISE policy {exp}")
+            if named not in exp:
+                raise Violation(f"group_notes on {show(M.notes)} with {opts()} raised about {named}, which is not one of the orphans under a RAISE policy {exp}")
         return 1
-    need(exp_kind == "ok", f"group_notes on {show(M.notes)} with {opts()} did not raise; expected OrphanedNoteException about one of {exp if exp_kind == 'raise' else ''}; got {len(raw)} groups")
+    if exp_kind != "ok":
+        raise Violation(f"group_notes on {show(M.notes)} with {opts()} did not raise; expected OrphanedNoteException about one of {exp}; got {len(raw)} groups")
     got = conv(L, raw)
     if got != exp:
         i = first_diff(got, exp)
@@ -158,8 +158,10 @@ def eval_group(L, M, rnotes, include, mode, join, oh, ot, pass_policies=True, pa
     for k in (1, 2, 3, 4):
         c = L.C.count_grouped_notes(raw, same_beat_minimum=k)
         e_ = MG.count_groups(exp, k)
-        need(c == e_, f"count_grouped_notes(groups of {show(M.notes)} [{opts()}], same_beat_minimum={k}) = {c}, expected {e_}")
-    need(L.C.count_grouped_notes(iter(raw)) == len(exp), f"count_grouped_notes with the default minimum on {show(M.notes)} [{opts()}] != {len(exp)}")
+        if c != e_:
+            raise Violation(f"count_grouped_notes(groups of {show(M.notes)} [{opts()}], same_beat_minimum={k}) = {c}, expected {e_}")
+    if L.C.count_grouped_notes(iter(raw)) != len(exp):
+        raise Violation(f"count_grouped_notes with the default minimum on {show(M.notes)} [{opts()}] != {len(exp)}")
     return 1
 
 
@@ -170,27 +172,36 @@ def eval_counts(L, notes, rnotes, head_pairs=MG.POLICY_PAIRS):
     _, dgroups = MG.Model(notes, MG.COUNT_DEFAULT).groups("all", False)
     for k in (1, 2, 3, 4):
         got, exp = C.count_steps(rnotes, same_beat_minimum=k), MG.count_groups(dgroups, k)
-        need(got == exp, f"count_steps({show(notes)}, same_beat_minimum={k}) = {got}, expected {exp}")
+        if got != exp:
+            raise Violation(f"count_steps({show(notes)}, same_beat_minimum={k}) = {got}, expected {exp}")
     for name, fn, k in (("count_steps", C.count_steps, 1), ("count_jumps", C.count_jumps, 2), ("count_hands", C.count_hands, 3)):
         got, exp = fn(rnotes), MG.count_groups(dgroups, k)
-        need(got == exp, f"{name}({show(notes)}) = {got}, expected {exp} (beats carrying >= {k} of tap/hold head/roll head/lift)")
+        if got != exp:
+            raise Violation(f"{name}({show(notes)}) = {got}, expected {exp} (beats carrying >= {k} of tap/hold head/roll head/lift)")
     got, exp = C.count_mines(rnotes), MG.count_mines(notes)
-    need(got == exp, f"count_mines({show(notes)}) = {got}, expected {exp}")
+    if got != exp:
+        raise Violation(f"count_mines({show(notes)}) = {got}, expected {exp}")
     n += 8
     for name, fn, head in (("count_holds", C.count_holds, "2"), ("count_rolls", C.count_rolls, "4")):
         for pair in list(head_pairs) + [None]:
             oh, ot = pair if pair else ("raise", "raise")
             kw = {"orphaned_head": L.POL[oh], "orphaned_tail": L.POL[ot]} if pair else {}
             kind, exp = MG.count_heads(notes, head, oh, ot)
-            what = f"{name}({show(notes)}, " + (f"orphaned_head={oh}, orphaned_tail={ot})" if pair else "defaults)")
+
+            def what():
+                return f"{name}({show(notes)}, " + (f"orphaned_head={oh}, orphaned_tail={ot})" if pair else "defaults)")
+
             n += 1
             try:
                 got = fn(rnotes, **kw)
             except L.Orphaned as e:
-                need(kind == "raise", f"{what} raised OrphanedNoteException({e}), expected {exp}")
+                if kind != "raise":
+                    raise Violation(f"{what()} raised OrphanedNoteException({e}), expected {exp}")
                 continue
-            need(kind == "ok", f"{what} = {got}, expected OrphanedNoteException about one of {exp}")
-            need(got == exp, f"{what} = {got}, expected {exp}")
+            if kind != "ok":
+                raise Violation(f"{what()} = {got}, expected OrphanedNoteException about one of {exp}")
+            if got != exp:
+                raise Violation(f"{what()} = {got}, expected {exp}")
     return n
 
 
@@ -224,9 +235,10 @@ def full_stream_check(L, notes, include, count_too=True):
     rnotes = real_notes(L, notes)
     M = MG.Model(notes, include if include is not None else MG.ALL_TYPES)
     n = 0
-    for mode in MG.MODES:
-        for oh, ot in MG.POLICY_PAIRS:
+    for mi, mode in enumerate(MG.MODES):
+        for oh, ot in MG.POLICY_PAIRS[3 * mi : 3 * mi + 3]:  # ignored when joining is off; all 9 pairs over the 3 modes
             n += eval_group(L, M, rnotes, include, mode, False, oh, ot)
+        for oh, ot in MG.POLICY_PAIRS:
             n += eval_group(L, M, rnotes, include, mode, True, oh, ot)
         n += eval_group(L, M, rnotes, include, mode, False, "raise", "raise", pass_policies=False)
         n += eval_group(L, M, rnotes, include, mode, True, "raise", "raise", pass_policies=False)
@@ -240,7 +252,7 @@ def full_stream_check(L, notes, include, count_too=True):
             for k in (1, 2, 3, 4):
                 got = L.C.count_steps(rnotes, include_note_types=inc, same_beat_notes=L.MODE[mode], same_beat_minimum=k)
                 exp = MG.count_groups(g, k)
-                need(got == exp, f"count_steps({show(notes)}, include={include!r}, same_beat={mode}, same_beat_minimum={k}) = {got}, expected {exp}")
+                need(got == exp, lambda: f"count_steps({show(notes)}, include={include!r}, same_beat={mode}, same_beat_minimum={k}) = {got}, expected {exp}")
                 n += 1
     if count_too:
         n += eval_counts(L, notes, rnotes)
@@ -368,5 +380,5 @@ def parts(tier):
     return [
         {"name": "corpus", "kind": "fixed", "cases": corpus_cases},
         {"name": f"grid-2x{rows}", "kind": "enum", "iter": _grid_iter(rows), "exhaustive": True},
-        {"name": "streams", "kind": "hypothesis", "strategy": s_stream, "examples": 6000 if q else 16 * 15000},
+        {"name": "streams", "kind": "hypothesis", "strategy": s_stream, "examples": 5000 if q else 16 * 10000},
     ]
